@@ -1112,6 +1112,11 @@ var detPrograms = []string{
 	"(list (mapcar (lambda (&rest r) r) (list 1 2 3) (list 4 5 6)) (mapcar (lambda (a &rest r) (cons (vtr 1 a) r)) (list 1 2) (list 3 4) (list 5 6)))",
 	"(let ((acc nil)) (mapc (lambda (&rest r) (setq acc (cons r acc))) (list 1 2) (list 3 4)) (defun uf1 (&rest r) r) (list (reverse acc) (mapcar #'uf1 (list 7 8) (list 9 10)) (mapcar 'uf1 (list 1 2))))",
 	"(let ((fs (mapcar (lambda (&rest r) (lambda () r)) (list 1 2) (list 3 4)))) (list (funcall (car fs)) (funcall (car (cdr fs)))))",
+	// argument values that are not self-evaluating (a symbol, a list that looks like a call) passed
+	// to a function defined later and to the function being defined: evaluated once, by the caller
+	"(defun uf2 (x) (list 'got (uf1 (vtr 1 x)))) (defun uf1 (y) y) (let ((foo 42)) (list (uf2 'foo) (uf2 '(+ 1 2)) (uf2 (list 'car foo)) (uf2 foo)))",
+	"(defun uf1 (x acc) (if (consp x) (uf1 (cdr x) (cons (car x) acc)) acc)) (let ((a 1) (b 2)) (list (uf1 '(a b) nil) (uf1 '((+ a b) a) '(b)) (uf1 (list a 'a) (list b 'b))))",
+	"(defun uf2 (x) (uf1 x x)) (defun uf1 (p &optional (q 'nq) &rest r) (list p q r)) (let ((s 5)) (list (uf2 's) (uf2 '(car s)) (funcall #'uf2 'uf2) (mapcar #'uf2 '(s (s)))))",
 	// a self-evaluating object as the only or the last form of a function body
 	"(defun uf1 () :circle) (list (uf1) (funcall (lambda () :sq)) ((lambda (a) :tri) 1) (uf1))",
 	"(defun uf1 (a) (vtr 1 a) :sq) (defun uf2 () \"s\") (list (uf1 1) (uf2) (funcall (lambda () #\\a)) (funcall (lambda () 3/4)) (funcall (lambda () nil)) (funcall (lambda () t)) (uf1 2))",
